@@ -20,6 +20,7 @@ Find the code that implements this property (the functions, tables, templates or
  - modernise or re-spell: f-strings <-> concatenation/format, type annotations, dataclass field reordering where order does not matter, `dict(...)` <-> literals, pathlib idioms, context managers, constants pulled out to module level, logging statements added;
  - move a function within its module, reorder independent statements, split a long function into two steps;
  - for templates and shell scripts: re-indent, reorder independent lines, quote variables consistently, replace backticks by $( ), rename shell variables, add comments, use `[[ ]]` instead of `[ ]` where equivalent.
+Earlier volunteers have already tried the obvious ones at the obvious places (renaming the locals of the main function, extracting its middle block into a helper, if/else into guard clauses): look for OTHER places the property depends on (helpers, tables, sibling backends, templates, scripts) and for less obvious kinds or combinations of kinds.
 Make them substantial enough to be a real clean-up (10-60 changed lines each), not a one-character edit, and do NOT change behaviour "for the better" either: no bug fixes, no new checks, no changed messages, no changed defaults.
 
 Each refactoring must:
